@@ -358,6 +358,22 @@ impl Condition {
         }
     }
 
+    /// Term comparison for the ID-based evaluator. Equality is lexical; an
+    /// ordering comparison needs two numeric operands and is an expression
+    /// error (`None`) otherwise, instead of silently comparing against zero.
+    fn compare_terms(lhs: &str, operator: &str, rhs: &str) -> Option<bool> {
+        match operator {
+            "=" => Some(lhs == rhs),
+            "!=" => Some(lhs != rhs),
+            ">" | ">=" | "<" | "<=" => {
+                let lhs = lhs.parse::<f64>().ok()?;
+                let rhs = rhs.parse::<f64>().ok()?;
+                Some(Self::compare_numeric(lhs, operator, rhs))
+            }
+            _ => Some(false),
+        }
+    }
+
     fn compare_numeric(lhs: f64, operator: &str, rhs: f64) -> bool {
         match operator {
             "=" => lhs == rhs,
@@ -396,20 +412,20 @@ impl Condition {
                 let &id = result.get(Self::normalize_variable(variable))?;
                 if Self::is_variable(value) {
                     let &rhs = result.get(Self::normalize_variable(value))?;
-                    return Some(match operator.as_str() {
-                        "=" => id == rhs,
-                        "!=" => id != rhs,
+                    return match operator.as_str() {
+                        "=" => Some(id == rhs),
+                        "!=" => Some(id != rhs),
                         _ => {
                             let lhs = dictionary.decode(id).unwrap_or("");
                             let rhs = dictionary.decode(rhs).unwrap_or("");
-                            Self::compare_lexical(lhs, operator, rhs)
+                            Self::compare_terms(lhs, operator, rhs)
                         }
-                    });
+                    };
                 }
 
                 let lhs = Self::normalize_lexical(dictionary.decode(id).unwrap_or(""));
                 let rhs = Self::normalize_lexical(value);
-                Some(Self::compare_lexical(lhs, operator, rhs))
+                Self::compare_terms(lhs, operator, rhs)
             }
             ConditionExpression::ArithmeticComparison(left, operator, right) => {
                 let resolver = |variable: &str| {
